@@ -30,6 +30,14 @@ Clauses (ids):
   C09.<tool>.seed        two runs with the same --seed give bit-identical output (incl. the boundary value --seed=0
                          with dither; the global generators are set differently before each run)
 
+Sessions ("kind": "session" cases, first in the plan): the statement's clauses hold for EVERY call, so they are also
+checked on sequences of 11 (thorough: 19) calls of both entry points inside one process and one directory, in which the
+configuration files (comp/pre/post .json and .yaml), the wav scp / map, the signal files and the output table / feature
+directory keep their paths and are rewritten with different content before each call; options present in one call are
+absent in the next (no --preprocess / --postprocess, no computer argument), the identical inline text is passed twice,
+and a path gets back a configuration it held earlier. Every call is checked with all clauses above ("the configured"
+computer / processors = what the arguments denote when the call is made).
+
 Input classes added for the statement's "for all configurations / sets of utterances": STFT frame lengths and shifts
 that are odd in samples, in causal / centred / Kaldi-shift framing; --seed=0; manifest cases whose ids contain one
 another (prefix, suffix, extension of the listed id) and manifest lines that merely contain a map id.
@@ -369,7 +377,7 @@ def _write_inputs(case, d):
     import torch
 
     raw = os.path.join(d, "raw")
-    os.makedirs(raw)
+    os.makedirs(raw, exist_ok=True)  # a session (see _check_session) rewrites the same paths call after call
     lines = []
     for i, u in enumerate(case["utts"]):
         sig = _samples(case, i)
@@ -463,17 +471,21 @@ def _quiet():
                 logger.removeHandler(h)
 
 
-def _run_tool(case, d, table, syntax, tag, perturb):
-    """One run of the real entry point. Returns (rc_or_exception_text, [(id, ndarray, dtype_str)])."""
+def _run_tool(case, d, table, syntax, tag, perturb, fixed_paths=False):
+    """One run of the real entry point. Returns (rc_or_exception_text, [(id, ndarray, dtype_str)]).
+    fixed_paths (sessions): the configuration files, the output table / directory and the manifest keep ONE path
+    for all runs made in `d`, i.e. every run rewrites the files of the run before it."""
     import torch
     from pydrobert.speech import command_line
 
     style = case.get("style", "dicts")
+    ctag = "" if fixed_paths else "_" + tag
+    tag = "s" if fixed_paths else tag
     opts = []
     if PRES[case["pre"]]:
-        opts.append("--preprocess=" + _cfg_arg(_proc_cfg(PRES[case["pre"]], style), syntax, d, "pre_" + tag))
+        opts.append("--preprocess=" + _cfg_arg(_proc_cfg(PRES[case["pre"]], style), syntax, d, "pre" + ctag))
     if POSTS[case["post"]]:
-        opts += ["--postprocess", _cfg_arg(_proc_cfg(POSTS[case["post"]], style), syntax, d, "post_" + tag)]
+        opts += ["--postprocess", _cfg_arg(_proc_cfg(POSTS[case["post"]], style), syntax, d, "post" + ctag)]
     if case["seed"] is not None:
         opts.append(f"--seed={case['seed']}")
     if case["channel"] != -1:
@@ -488,7 +500,7 @@ def _run_tool(case, d, table, syntax, tag, perturb):
         ark = os.path.join(d, f"feats_{tag}.ark")
         if case.get("min_duration"):
             opts.append(f"--min-duration={case['min_duration']}")
-        args = ["scp:" + table, "ark:" + ark, _cfg_arg(_computer_cfg(COMPUTERS[case["computer"]]), syntax, d, "comp_" + tag)]
+        args = ["scp:" + table, "ark:" + ark, _cfg_arg(_computer_cfg(COMPUTERS[case["computer"]]), syntax, d, "comp" + ctag)]
         try:
             with _quiet():
                 rc = command_line.compute_feats_from_kaldi_tables(args + opts)
@@ -507,7 +519,7 @@ def _run_tool(case, d, table, syntax, tag, perturb):
     out = os.path.join(d, f"out_{tag}")
     args = [table]
     if case["computer"] is not None:
-        args.append(_cfg_arg(_computer_cfg(COMPUTERS[case["computer"]]), syntax, d, "comp_" + tag))
+        args.append(_cfg_arg(_computer_cfg(COMPUTERS[case["computer"]]), syntax, d, "comp" + ctag))
     args.append(out)
     prefix, suffix = case.get("prefix", ""), case.get("suffix", ".pt")
     if prefix:
@@ -555,16 +567,37 @@ def _same(a, b):
     return True, ""
 
 
+def _new_info():
+    return {"compared": 0, "zero": 0, "slack": 0.0, "slack_entry": 0.0, "skipped": 0}
+
+
 def _check(case):
-    """Runs the case (1-3 runs of the real tool). Returns (failures, info)."""
-    tool = case["tool"]
-    fails, info = [], {"compared": 0, "zero": 0, "slack": 0.0, "slack_entry": 0.0, "skipped": 0}
+    """Runs the case (1-3 runs of the real tool, or a session of such cases). Returns (failures, info)."""
+    if case.get("kind") == "session":
+        fails, infos = _check_session(case)
+        info = _new_info()
+        for i in infos:
+            for k in ("compared", "zero", "skipped"):
+                info[k] += i[k]
+            for k in ("slack", "slack_entry"):
+                info[k] = max(info[k], i[k])
+        return [(c, m) for c, m, _ in fails], info
     d = tempfile.mkdtemp(prefix="c09_")
     try:
+        return _check_in(case, d, fixed_paths=False)
+    finally:
+        shutil.rmtree(d, ignore_errors=True)
+
+
+def _check_in(case, d, fixed_paths):
+    """One case in directory d. Returns (failures, info)."""
+    tool = case["tool"]
+    fails, info = [], _new_info()
+    if True:
         table = _write_inputs(case, d)
         exp = _expected(case)
         info["skipped"] = len(case["utts"]) - len(exp)
-        rc, got = _run_tool(case, d, table, case["syntax"], "a", perturb=11)
+        rc, got = _run_tool(case, d, table, case["syntax"], "a", perturb=11, fixed_paths=fixed_paths)
         if rc != 0:
             fails.append((f"C09.{tool}.exit", f"entry point gave {rc!r} with {len(exp)} utterance(s) to store"))
         want_ids = sorted(k for k, _, _ in exp)
@@ -616,18 +649,122 @@ def _check(case):
                     )
                 )
         if case["syntax"] != "inline" and (case["seed"] is not None or not _has(PRES[case["pre"]], "dither")):
-            rc2, got2 = _run_tool(case, d, table, "inline", "b", perturb=12)
+            rc2, got2 = _run_tool(case, d, table, "inline", "b", perturb=12, fixed_paths=fixed_paths)
             ok, msg = _same(got, got2)
             if not ok or rc2 != rc:
                 fails.append((f"C09.{tool}.syntax", f"{case['syntax']} vs inline JSON: {msg or (rc, rc2)}"))
         if case.get("repeat") and case["seed"] is not None:
-            rc3, got3 = _run_tool(case, d, table, case["syntax"], "c", perturb=13)
+            rc3, got3 = _run_tool(case, d, table, case["syntax"], "c", perturb=13, fixed_paths=fixed_paths)
             ok, msg = _same(got, got3)
             if not ok or rc3 != rc:
                 fails.append((f"C09.{tool}.seed", f"second run with --seed={case['seed']}: {msg or (rc, rc3)}"))
+    return fails, info
+
+
+# ---------------------------------------------------------------------------------------------
+# sessions: several calls of the entry points in ONE process, on the SAME paths
+# ---------------------------------------------------------------------------------------------
+# Statement: "For EVERY utterance given to compute-feats-from-kaldi-tables or signals-to-torch-feat-dir ... the stored
+# feature matrix equals ... the configured pre-processors in order, compute_full of the configured computer ..., then the
+# configured post-processors" and "The same configuration passed as inline JSON, as a JSON file or as a YAML file yields
+# the same features"; quantifier "for all ... configurations, config syntaxes ...". "The configured" computer / processors
+# of a call are what its arguments denote WHEN THE CALL IS MADE: a file argument denotes the file's content at that
+# moment, an absent option denotes "none" -- whatever this process was asked to do earlier. A session therefore makes a
+# sequence of calls (both tools, all three syntaxes) inside one process and one directory in which every path (the
+# configuration files comp/pre/post.json|yaml, the wav scp / map, the signal files, the output table / feature directory)
+# is REWRITTEN between the calls with different content, and checks every call with the same clauses as a single case
+# (value against the written-out pipeline, ids, syntax == inline, same seed twice).
+SESSION_POOL = [
+    ("stft_fbank", "preemph_dither", "deltas"),
+    ("stft_kaldi", "dither_preemph", "stack_deltas"),
+    ("si_gabor", "dither", "stack"),
+    ("stft_causal_gabor", "preemph", "deltas_stack_standardize"),
+    ("si_tone", "dither_dither", "standardize_deltas"),
+    ("stft_odd_kaldi", "preemph_dither", "standardize"),
+]
+SESSION_BARE = [("stft_odd_centered", "none", "none"), ("stft_even_oddshift", "none", "none")]
+_STEP_KEYS = ("tool", "computer", "pre", "post", "syntax", "style", "seed", "data_seed", "repeat")
+
+
+def _expand_step(session, step):
+    """The full single case of one call of a session (all calls of a tool use the same utterance ids, so that the files
+    of the feature directory / the keys of the table are the same ones call after call)."""
+    tool = step["tool"]
+    case = {k: step[k] for k in _STEP_KEYS}
+    case.update({"variant": "plain", "channel": -1})
+    case["utts"] = [
+        {"id": session["ids"][tool][j], "n": int(n), "fmt": fmt, "ch": 1 if tool == "kaldi" else 0, "rate": RATE}
+        for j, (n, fmt) in enumerate(zip(step["n"], step["fmt"]))
+    ]
+    return case
+
+
+def _step_text(session, k):
+    st = session["steps"][k]
+    txt = (
+        f"call {k + 1} of a sequence of calls in one process that rewrites the same paths (configuration files, map / scp, "
+        f"signal files, output) before each call: {st['tool']} tool, configuration as {st['syntax']}"
+    )
+    if st["syntax"] != "inline":
+        prev = [j for j in range(k) if session["steps"][j]["syntax"] == st["syntax"]]
+        if prev:
+            txt += f" (these files held another configuration for call {prev[-1] + 1})"
+    return txt
+
+
+def _check_session(session):
+    """Returns ([(clause, message, step index)], [info per executed step])."""
+    fails, infos = [], []
+    d = tempfile.mkdtemp(prefix="c09s_")
+    try:
+        for k, step in enumerate(session["steps"]):
+            sc = _expand_step(session, step)
+            try:
+                f, info = _check_in(sc, d, fixed_paths=True)
+            except KeyboardInterrupt:
+                raise
+            except Exception as e:  # harness or library error outside the entry point
+                f, info = [(f"C09.{sc['tool']}.exit", f"harness could not finish the call: {type(e).__name__}: {e}")], _new_info()
+            infos.append(info)
+            for clause, msg in f:
+                fails.append((clause, f"{_step_text(session, k)}: {msg}", k))
     finally:
         shutil.rmtree(d, ignore_errors=True)
-    return fails, info
+    return fails, infos
+
+
+def _make_session(rng, first_tool, n_random=0):
+    """Template of calls (t0/t1 = the two tools, A-E = five different configurations, N = one without pre- and
+    post-processors), then n_random random calls."""
+    t0, t1 = (first_tool, "kaldi" if first_tool == "torch" else "torch")
+    pool = [SESSION_POOL[i] for i in rng.permutation(len(SESSION_POOL))]
+    A, B, C, D, E = pool[:5]
+    N = SESSION_BARE[int(rng.integers(0, len(SESSION_BARE)))]
+    template = [
+        (t0, A, "json", False),
+        (t0, B, "json", False),  # same three paths, new content
+        (t1, C, "json", False),  # the other tool, same paths again
+        (t1, A, "yaml", False),
+        (t0, D, "yaml", False),  # same yaml paths, new content, other tool
+        (t0, N, "json", False),  # no --preprocess / --postprocess after calls that had them
+        (t1, B, "inline", True),  # inline after files; the identical inline text twice (repeat)
+        (t1, E, "json", False),
+        (t0, A, "json", False),  # a configuration the path has held before (A ... A)
+        ("torch", (None, "dither", "none"), "json", False),  # no computer argument after calls that had one
+        ("torch", D, "yaml", False),
+    ]
+    for _ in range(n_random):
+        cfg = (SESSION_POOL + SESSION_BARE)[int(rng.integers(0, len(SESSION_POOL) + 2))]
+        template.append((str(rng.choice(["kaldi", "torch"])), cfg, str(rng.choice(["json", "yaml", "inline"])), bool(rng.integers(0, 2))))
+    ids = [ID_POOL[i] for i in rng.permutation(len(ID_POOL))]
+    session = {"kind": "session", "ids": {"kaldi": ids[:3], "torch": ids[3:7]}, "steps": []}
+    for j, (tool, (comp, pre, post), syntax, repeat) in enumerate(template):
+        c = _make_case(rng, tool, comp, pre, post, syntax, "plain", repeat=repeat, style=("compact" if j % 2 else "dicts"))
+        step = {k: c[k] for k in _STEP_KEYS}
+        step["n"] = [u["n"] for u in c["utts"]]
+        step["fmt"] = [u["fmt"] for u in c["utts"]]
+        session["steps"].append(step)
+    return session
 
 
 # ---------------------------------------------------------------------------------------------
@@ -847,7 +984,11 @@ def _plan(tier, seed):
     k = [c for c in cases if c["tool"] == "kaldi"]
     t = [c for c in cases if c["tool"] == "torch"]
     cases = [c for pair in zip(k, t) for c in pair] + k[len(t) :] + t[len(k) :]
+    # sessions (sequences of calls in one process on the same, rewritten paths) first: one starting with each tool
+    srng = _common.make_rng(seed, "c09:sessions:" + tier)
+    cases = [_make_session(srng, "torch"), _make_session(srng, "kaldi")] + cases
     if tier == "thorough":
+        cases += [_make_session(srng, ("torch", "kaldi")[i % 2], n_random=8) for i in range(8)]
         kv = ["plain", "rate", "channel", "mindur", "mixed", "gap"]
         tv = ["plain", "channel", "manifest", "affix", "gap"]
         extra = []
@@ -890,22 +1031,36 @@ def run(tier: str, seed: int) -> dict:
             geometry[name] = (int(c.frame_length), int(c.frame_shift))
     n_odd = {"kaldi": 0, "torch": 0}
     n_seed0 = {"kaldi": 0, "torch": 0}
+    n_session_calls = n_rewritten = 0
     for case in cases:
         if col.out_of_time() or col.too_many_failures():
             col.note(f"stopped after {n_done}/{len(cases)} planned cases (time or failure limit)")
             break
+        if case.get("kind") == "session":
+            n_done += 1
+            sfails, infos = _check_session(case)
+            for k, info in enumerate(infos):
+                st = case["steps"][k]
+                key = {"session": [case["steps"][j]["data_seed"] for j in range(k)], "step": {q: st[q] for q in _STEP_KEYS}}
+                col.case(key, nontrivial=info["compared"] >= 1, sample=(case if k == 0 else None))
+                slack[st["tool"]] = max(slack[st["tool"]], info["slack"])
+                if st["tool"] == "torch":
+                    slack["torch_entry"] = max(slack["torch_entry"], info["slack_entry"])
+                n_zero += info["zero"]
+                n_skip += info["skipped"]
+                n_session_calls += 1
+                prev = [j for j in range(k) if case["steps"][j]["syntax"] == st["syntax"] != "inline"]
+                n_rewritten += bool(prev) and info["compared"] >= 1
+            for clause, msg, k in sfails:
+                # the calls up to the failing one reproduce it
+                col.fail(clause, dict(case, steps=case["steps"][: k + 1]), msg)
+            continue
         try:
             fails, info = _check(case)
         except KeyboardInterrupt:
             raise
         except Exception as e:  # harness or library error outside the entry point
-            fails, info = [(f"C09.{case['tool']}.exit", f"harness could not finish the case: {type(e).__name__}: {e}")], {
-                "compared": 0,
-                "zero": 0,
-                "slack": 0.0,
-                "slack_entry": 0.0,
-                "skipped": 0,
-            }
+            fails, info = [(f"C09.{case['tool']}.exit", f"harness could not finish the case: {type(e).__name__}: {e}")], _new_info()
         n_done += 1
         key = {k: case[k] for k in ("tool", "computer", "pre", "post", "syntax", "variant", "style", "seed", "data_seed")}
         col.case(key, nontrivial=info["compared"] >= 1, sample=case)
@@ -931,11 +1086,17 @@ def run(tier: str, seed: int) -> dict:
         f"{n_odd}; compared cases with --seed=0 and dither: {n_seed0}"
     )
     col.note(
+        f"sessions (calls in one process on the same, rewritten paths): {n_session_calls} calls checked, {n_rewritten} of "
+        f"them with configuration files whose paths held another configuration in an earlier call of the session"
+    )
+    col.note(
         "not enumerated: torch tool x Standardize x zero-frame utterance (pipeline undefined: Standardize.apply "
         "rejects empty input); Kaldi tool zero-frame utterances are required only to be present with zero rows"
     )
     return col.result(
-        rule="one case = one (tool, computer, pre list, post list, config syntax+spelling, utterance set, options, seed); "
+        rule="one case = one (tool, computer, pre list, post list, config syntax+spelling, utterance set, options, seed), "
+        "either on its own in a fresh directory or as one call of a session (sequence of calls in one process on the same, "
+        "rewritten paths; each call counts as one case, keyed by the calls before it); "
         "the real entry point is run in-process 1-3 times (the syntax run, an inline-JSON run to compare with, a "
         "repeat with the same --seed); non-trivial iff >= 1 stored utterance with >= 1 frame was compared with the "
         "written-out pipeline",
@@ -948,8 +1109,11 @@ def run(tier: str, seed: int) -> dict:
             "YAML file} x utterance sets of 3-5 utterances <= 0.3 s at 8 kHz (incl. too short for a frame, rate "
             "mismatch, channel >= channels, below --min-duration, frame shift > frame length with an utterance in the gap, 2-3 channel signals with --channel, manifest-listed "
             "with ids that are prefixes / suffixes / extensions of the listed id and manifest lines that contain a map id, "
-            "file prefix/suffix); containers wav/npy(f64,f32,i16)/pt; "
-            + ("quick: 35 hand-picked combinations (4 of them with --seed=0 and dither) x 3 syntaxes" if tier == "quick" else "thorough: quick plan + full cross product once with random syntax/options")
+            "file prefix/suffix); containers wav/npy(f64,f32,i16)/pt"
+            + "; call sequences in one process: 2 sessions of 11 calls (one starting with each tool; both tools, 3 syntaxes, 6-7 "
+            "configurations out of 9, every file path rewritten between calls, options dropped between calls, same inline text "
+            "twice)"
+            + ("; quick: 35 hand-picked combinations (4 of them with --seed=0 and dither) x 3 syntaxes" if tier == "quick" else "; thorough: quick plan + full cross product once with random syntax/options + 8 sessions of 19 calls (8 of them random)")
             + "; excluded: torch tool x Standardize x zero-frame utterance (pipeline undefined: Standardize.apply rejects empty input)"
         ),
         assumptions=ASSUMPTIONS,
